@@ -27,7 +27,7 @@ RULE = ('definition part: cases = (curve, breakpoint set, metric), full product;
 ASSUMPTIONS = ['ratio metrics (smape, rpd, rmspe) are compared definitionally on curves with y >= 1 only (1-ulp noise of m*x+b is amplified to O(1) at y = 0)',
                'relative tolerance 1e-9 (+1e-12 absolute) against the math.fsum reference; cache transparency is bit-exact',
                'canonical state = key set: sound because every stored value is checked to equal the fresh recomputation of its key']
-BOUNDS = {'quick': {'definition': 'P n=3..5 (ratio metrics), A n=3,4 + A12 n=5 (r2, rmsle); every breakpoint set', 'BFS': '24 curves n=5 x 5 metrics to closure; 4 curves n=6'},
+BOUNDS = {'quick': {'definition': 'P n=3..5 (ratio metrics), A n=3,4 + A12 n=5 (r2, rmsle); P, A12 n=4 with y*2^-30, y*2^-50, y*2^40; every breakpoint set', 'BFS': '24 curves n=5 x 5 metrics to closure; 4 curves n=6'},
           'thorough': {'definition': 'P n<=6, A n<=5, A12 n=6', 'BFS': '96 curves n=5, 32 curves n=6 (closure reached; n=7 has up to 2^21 key sets and is not attempted)'}}
 TECHNIQUE = 'explicit-state BFS over cache histories of the real compute_global_cost (to closure) plus bounded-exhaustive definitional comparison over all breakpoint sets'
 LEVEL_TEXT = ('Model checking: the cache is explored as a state machine - every query from every reachable cache state, including caches inherited from grdp - with bit-exact '
@@ -45,6 +45,9 @@ def units(tier, seed):
     else:
         plan = [('P', 3, 1), ('P', 4, 4), ('P', 5, 16), ('P', 6, 256), ('A', 4, 8), ('A', 5, 128), ('A12', 6, 256)]
         bfs = [(5, 96), (6, 32)]
+    for sy in (2.0 ** -30, 2.0 ** -50, 2.0 ** 40):
+        for base, n, K in ((curves.P, 4, 4), (curves.A12, 4, 4)) + (((curves.P, 5, 16), (curves.A12, 5, 16)) if tier != 'quick' else ()):
+            plan.append((curves.scaled(base, 1.0, sy).name, n, K))
     for prof, n, K in plan:
         for k in range(K):
             u.append(('def', prof, n, k, K))
@@ -122,7 +125,8 @@ def check_def(xs, ys, S, metrics_list):
             ip = [es.global_rmse(xs, ys, [s for j, s in enumerate(S) if j != i]) - fin for i in range(1, len(S) - 1)]
             em = median(ip)
             emad = median([abs(v - em) for v in ip])
-            if not close(float(m), em) or not close(float(mad), emad):
+            sc = 1e-9 * max(abs(fin), max(abs(v) + abs(fin) for v in ip))      # differences of RMSEs: noise is relative to the RMSEs, not to the difference
+            if abs(float(m) - em) > sc + 1e-9 * abs(em) + 1e-12 or abs(float(mad) - emad) > sc + 1e-9 * abs(emad) + 1e-12:
                 out.append(Failure(fn, 'differs-from-definition', key, case, 'observed (%r, %r), definition (%r, %r)' % (float(m), float(mad), em, emad), (n, len(S))))
         except Exception as e:  # noqa: BLE001
             out.append(Failure(fn, lib.exc_kind(e), key, case, repr(e), (n, len(S))))
@@ -238,7 +242,7 @@ def run_unit(unit, res):
     if unit[0] == 'def':
         _, prof, n, k, K = unit
         P = curves.get(prof)
-        mets = RATIO + ('r2', 'rmsle') if prof == 'P' else ('r2', 'rmsle')
+        mets = RATIO + ('r2', 'rmsle') if prof.split('+')[0] == 'P' else ('r2', 'rmsle')
         first = True
         for i, xs, ys in P.shard(n, k, K):
             for S in curves.subsets_with_ends(n):
@@ -255,7 +259,7 @@ def run_unit(unit, res):
             if first:
                 first = False
                 res.sample({'definition': {'profile': prof, 'x': xs, 'y': ys, 'breakpoint_sets': 2 ** (n - 2), 'metrics': list(mets)}})
-        res.notes['def_n_max_' + prof] = n
+        res.notes['def_n_max_' + prof.split('+')[0]] = n
     else:
         _, n, j, cnt, seed = unit
         prof, xs, ys = bfs_curve(n, j, seed)
